@@ -184,6 +184,19 @@ func report(o *options, p *Program, units []*UnitResult, loadSecs, genSecs, solv
 					fmt.Printf("  slow vacuity probe %.1fs %s %s\n", ob.Seconds, ob.Result, ob.Name)
 				}
 				if ob.Result == "unsat" {
+					if u.Pure && ob.Kind == "vacuity.return" {
+						// a pure function with a branch that the global assumptions exclude (NaN tests under the
+						// finite-values assumption): fine as long as some return is reachable
+						someReturn := false
+						for _, o2 := range u.VC.obls {
+							if o2.Vacuity && o2.Kind == "vacuity.return" && o2.Result != "unsat" {
+								someReturn = true
+							}
+						}
+						if someReturn {
+							continue
+						}
+					}
 					undecided = append(undecided, fmt.Sprintf("%s: contradictory context (vacuity probe %s is unsat)", u.Name, ob.Name))
 				}
 				continue
